@@ -82,6 +82,9 @@ static void elim_case(const vh_args_t *a, int op) {
      * (the word loops of the row-processing routines are unrolled eight times) */
     m = vh_randint(4, 40);
     n = vh_pick((int[]){448, 512, 513, 576, 640, 960, 1024, 1088}, 8) - vh_pick((int[]){0, 0, 1, 37}, 4);
+    /* wider than eight times the smallest admissible L1: the strip height of the column-permutation kernels (used by the
+     * PLUQ-based reduction) rounds down to nothing there */
+    if (vh_randint(0, 5) == 0) { m = vh_randint(3, 8); n = 33000 + vh_randint(0, 200); }
   }
   /* full row rank with a multiple of 64 rows and more columns than rows (the PLUQ-based reduction treats a rank that is a
    * multiple of the word size separately) */
